@@ -49,7 +49,7 @@ impl Violation {
   }
 }
 
-pub const MAX_SAMPLES: usize = 6;
+pub const MAX_SAMPLES: usize = 24;
 
 #[derive(Clone, Debug, Default)]
 pub struct Stats {
